@@ -3,12 +3,23 @@
 (* The laws of Choice.tla, checked exhaustively by TLC over a small        *)
 (* alphabet.  One "state" per case; `mode` says which family of laws the   *)
 (* state belongs to:                                                       *)
+(*   doc   : (document)                      typing, total orders, type facts *)
+(*   atom  : (document, atom x)              a missing Variable never matches *)
 (*   tree  : (document, atom x, atom y)      Boolean algebra of rule trees *)
 (*   rules : (document, atoms x, y, z)       first match / Default         *)
-(*   str   : (strings x, y, z)               code-point order, wildcards   *)
+(*   str3  : (strings x, y, z)               code-point order              *)
+(*   str   : (strings x, y, short z)         wildcards                     *)
 (*   sets  : (result sets x, y, z)           algebra of the result sets    *)
+(* The cases are generated in two steps (first the document or the first   *)
+(* string, then the rest) so that TLC's workers share them; the laws are   *)
+(* invariants of the complete cases (stage 2).  All modes are checked      *)
+(* unless the environment variable MC_CHOICE_MODE names one.               *)
 (***************************************************************************)
-EXTENDS Choice
+EXTENDS Choice, IOUtils
+
+AllModes == {"doc", "atom", "tree", "rules", "str3", "str", "sets"}
+Modes == IF "MC_CHOICE_MODE" \in DOMAIN IOEnv /\ IOEnv.MC_CHOICE_MODE \in AllModes
+         THEN {IOEnv.MC_CHOICE_MODE} ELSE AllModes
 
 SE == Str("", <<>>)
 SA == Str("a", <<97>>)
@@ -29,6 +40,10 @@ Vals == {Missing, JNull, JBool(TRUE), JBool(FALSE), JNum(0), JNum(1), SA, SB, T1
 Doc(a, b) == JObj((IF IsMissing(a) THEN <<>> ELSE <<"a">>) \o (IF IsMissing(b) THEN <<>> ELSE <<"b">>),
                   (IF IsMissing(a) THEN <<>> ELSE <<a>>) \o (IF IsMissing(b) THEN <<>> ELSE <<b>>))
 Docs == {Doc(a, b) : a \in Vals, b \in Vals}
+ValsS == {Missing, JBool(FALSE), JNum(0), JNum(1), SA, T1}
+DocsS == {Doc(a, b) : a \in ValsS, b \in ValsS}
+ValsR == {Missing, JBool(TRUE), JNum(1), SA}
+DocsR == {Doc(a, b) : a \in ValsR, b \in ValsR}
 
 OpConsts == {<<"BooleanEquals", JBool(FALSE)>>, <<"BooleanEquals", JBool(TRUE)>>,
              <<"NumericEquals", JNum(1)>>, <<"NumericLessThan", JNum(1)>>, <<"NumericGreaterThanEquals", JRat(1, 2)>>,
@@ -41,21 +56,22 @@ Atoms == {Atom(oc[1], v, oc[2]) : oc \in OpConsts, v \in {"a"}}
          \cup {Atom(oc[1], "b", oc[2]) : oc \in {<<"BooleanEquals", JBool(FALSE)>>, <<"NumericLessThan", JNum(1)>>,
                                                  <<"StringEquals", SA>>, <<"IsNull", JBool(FALSE)>>}}
          \cup {PathAtom(op, "a", "b") : op \in {"NumericEquals", "StringLessThanEquals", "TimestampEquals", "BooleanEquals"}}
-Small == {Atom("BooleanEquals", "a", JBool(TRUE)), Atom("NumericLessThan", "a", JNum(1)),
-          Atom("StringEquals", "b", SA), Atom("IsPresent", "b", JBool(TRUE)),
+AtomsY == {Atom("BooleanEquals", "a", JBool(FALSE)), Atom("BooleanEquals", "b", JBool(FALSE)),
+           Atom("NumericLessThan", "b", JNum(1)), Atom("StringMatches", "a", Str("a*", <<97, 42>>)),
+           Atom("StringMatches", "a", Str("a\\", <<97, 92>>)), Atom("TimestampEquals", "a", T1),
+           Atom("IsPresent", "a", JBool(TRUE)), Atom("IsNull", "b", JBool(FALSE)),
+           Atom("IsNumeric", "a", JNum(1)), PathAtom("NumericEquals", "a", "b")}
+Small == {Atom("BooleanEquals", "a", JBool(TRUE)), Atom("StringEquals", "b", SA), Atom("IsPresent", "b", JBool(TRUE)),
           Atom("IsNull", "b", JBool(FALSE)), PathAtom("NumericEquals", "a", "b")}
 
 Codes == {97, 42, 92, 63}
 Strs == {<<>>} \cup {<<c>> : c \in Codes} \cup {<<c, e>> : c \in Codes, e \in Codes}
+StrsShort == {<<>>} \cup {<<c>> : c \in Codes} \cup {<<97, 42>>, <<92, 42>>, <<42, 97>>, <<97, 97>>}
 ResultSets == (SUBSET Open) \ {{}}
 
-VARIABLES mode, d, x, y, z
-vars == <<mode, d, x, y, z>>
-Init == \/ mode = "tree" /\ d \in Docs /\ x \in Atoms /\ y \in Atoms /\ z = 0
-        \/ mode = "rules" /\ d \in Docs /\ x \in Small /\ y \in Small /\ z \in Small
-        \/ mode = "str" /\ d = 0 /\ x \in Strs /\ y \in Strs /\ z \in Strs
-        \/ mode = "sets" /\ d = 0 /\ x \in ResultSets /\ y \in ResultSets /\ z \in ResultSets
-Next == UNCHANGED vars
+VARIABLES stage, mode, d, x, y, z, ev, out
+vars == <<stage, mode, d, x, y, z, ev, out>>
+Case(m) == stage = 2 /\ mode = m
 
 E(r) == Eval(r, d, d, {})
 T == Node("And", <<>>)               (* the rule that always matches *)
@@ -65,37 +81,37 @@ And2(r, s) == Node("And", <<r, s>>)
 Or2(r, s) == Node("Or", <<r, s>>)
 
 (* ---- Boolean algebra of rule trees --------------------------------------------------- *)
-LawDeMorgan == mode = "tree" =>
+LawDeMorgan == Case("tree") =>
     /\ E(Not(And2(x, y))) = E(Or2(Not(x), Not(y)))
     /\ E(Not(Or2(x, y))) = E(And2(Not(x), Not(y)))
-LawDoubleNegation == mode = "tree" => E(Not(Not(x))) = E(x)
-LawIdentityElements == mode = "tree" =>
+LawDoubleNegation == Case("tree") => E(Not(Not(x))) = E(x)
+LawIdentityElements == Case("tree") =>
     /\ E(T) = Match /\ E(F) = NoMatch
     /\ E(And2(x, T)) = E(x) /\ E(And2(T, x)) = E(x)
     /\ E(Or2(x, F)) = E(x) /\ E(Or2(F, x)) = E(x)
     /\ E(Node("And", <<x>>)) = E(x) /\ E(Node("Or", <<x>>)) = E(x)
     /\ "match" \notin E(And2(x, F)) /\ "nomatch" \notin E(Or2(x, T))
-LawCommutativeAssociative == mode = "tree" =>
+LawCommutativeAssociative == Case("tree") =>
     /\ E(And2(x, y)) = E(And2(y, x)) /\ E(Or2(x, y)) = E(Or2(y, x))
     /\ E(And2(x, And2(y, x))) = E(Node("And", <<x, y, x>>))
     /\ E(Or2(Or2(x, y), x)) = E(Node("Or", <<x, y, x>>))
-LawExcludedMiddle == mode = "tree" =>
+LawExcludedMiddle == Case("tree") =>
     (E(x) \in {Match, NoMatch} => E(Or2(x, Not(x))) = Match /\ E(And2(x, Not(x))) = NoMatch)
 (* decided atoms give decided trees; a tree is two-valued logic on decided atoms *)
-LawTwoValued == mode = "tree" =>
+LawTwoValued == Case("tree") =>
     (E(x) \in {Match, NoMatch} /\ E(y) \in {Match, NoMatch} =>
         /\ E(And2(x, y)) = B(E(x) = Match /\ E(y) = Match)
         /\ E(Or2(x, y)) = B(E(x) = Match \/ E(y) = Match)
         /\ E(Not(x)) = B(E(x) # Match))
 (* the literal and the Path form of an operator agree when the reference holds the constant *)
-LawPathAgreesWithLiteral == mode = "tree" =>
+LawPathAgreesWithLiteral == Case("doc") =>
     \A op \in PathOps :
         LET b == Select(d, <<KeyStep("b")>>)
         IN IsMissing(b) \/ E(PathAtom(op, "a", "b")) = E(Atom(op, "a", b))
 (* a missing Variable never matches a value comparison; wrong types never match *)
-LawMissingNeverMatches == mode = "tree" =>
+LawMissingNeverMatches == Case("atom") =>
     \A op \in ValueOps : IsMissing(Select(d, <<KeyStep("a")>>)) => E(Atom(op, "a", x.lit)) = NoMatch
-LawTypeDiscipline == mode = "tree" =>
+LawTypeDiscipline == Case("doc") =>
     LET a == Select(d, <<KeyStep("a")>>) IN
     /\ \A op \in NumericOps : ~IsMissing(a) /\ ~IsNum(a) => E(Atom(op, "a", JNum(0))) = NoMatch
     /\ \A op \in StringRelOps \cup {"StringMatches"} : ~IsMissing(a) /\ ~IsStr(a) => E(Atom(op, "a", SStar)) = NoMatch
@@ -110,13 +126,13 @@ OrderLaw(f, typed) ==
                   /\ \A r \in {"eq", "lt", "gt"} : f[r] \in {Match, NoMatch}
                   /\ f.le = B(f.lt = Match \/ f.eq = Match) /\ f.ge = B(f.gt = Match \/ f.eq = Match)
     ELSE \A r \in DOMAIN f : f[r] = NoMatch
-LawTotalOrders == mode = "tree" =>
+LawTotalOrders == Case("doc") =>
     LET a == Select(d, <<KeyStep("a")>>) IN
     /\ \A c \in {JNum(0), JNum(1), JRat(1, 2)} : OrderLaw(Fam("Numeric", c), ~IsMissing(a) /\ IsNum(a))
     /\ \A c \in {SE, SA, SB, T1} : OrderLaw(Fam("String", c), ~IsMissing(a) /\ IsStr(a))
     /\ \A c \in {T1, T2, T3} : OrderLaw(Fam("Timestamp", c), ~IsMissing(a) /\ TsClass(a) = "yes")
 (* timestamps compare by instant, not as text; known answers of the classification *)
-LawTimestampInstant == mode = "tree" =>
+LawTimestampInstant == Case("doc") =>
     /\ ValueCompare("TimestampEquals", T1, T2, {}) = Match
     /\ ValueCompare("StringEquals", T1, T2, {}) = NoMatch
     /\ ValueCompare("TimestampGreaterThan", T3, T1, {}) = Match
@@ -127,7 +143,7 @@ LawTimestampInstant == mode = "tree" =>
     /\ TypeTest("IsTimestamp", TOdd, JBool(TRUE)) = Open
     /\ TypeTest("IsTimestamp", T2, JBool(TRUE)) = Match /\ TypeTest("IsTimestamp", SA, JBool(FALSE)) = Match
 (* the type tests partition the present values; IsPresent is decided everywhere *)
-LawTypeFacts == mode = "tree" =>
+LawTypeFacts == Case("doc") =>
     LET a == Select(d, <<KeyStep("a")>>)
         yes(op) == E(Atom(op, "a", JBool(TRUE)))  no(op) == E(Atom(op, "a", JBool(FALSE)))
     IN /\ yes("IsPresent") = B(~IsMissing(a)) /\ no("IsPresent") = B(IsMissing(a))
@@ -138,50 +154,76 @@ LawTypeFacts == mode = "tree" =>
        /\ yes("IsTimestamp") = Match => yes("IsString") = Match
 
 (* ---- first match, Default, States.NoChoiceMatched ------------------------------------- *)
+(* the three rules of the state; a rule list is a sequence of distinct indices into Rs *)
 Rs == <<WithNext(x, "M1"), WithNext(y, "M2"), WithNext(z, "M3")>>
-Ev(rs, i) == Eval(rs[i], d, d, {})
+IndexLists == {<<>>} \cup {<<i>> : i \in 1..3}
+              \cup {<<i, j>> : i, j \in 1..3} \cup {<<i, j, k>> : i, j, k \in 1..3}
+Lists == {L \in IndexLists : \A i, j \in DOMAIN L : i # j => L[i] # L[j]}
+RulesOf(L) == [i \in DOMAIN L |-> Rs[L[i]]]
 Defaults == {[set |-> FALSE, next |-> ""], [set |-> TRUE, next |-> "D"]}
-Out(rs, df) == OutcomesFrom(rs, 1, df, d, d, {})
+OutSpec(L, df) == OutcomesFrom(RulesOf(L), 1, df, d, d, {})
+OutTable == [L \in Lists |-> [df \in Defaults |-> OutSpec(L, df)]]
 End(df) == IF df.set THEN GoTo(df.next) ELSE NoChoiceMatched
-Reach(rs, i) == \A j \in 1..(i - 1) : "nomatch" \in Ev(rs, j)
-Lists == {Rs, SubSeq(Rs, 1, 2), SubSeq(Rs, 1, 1), <<>>}
-         \cup {<<Rs[p[1]], Rs[p[2]], Rs[p[3]]>> : p \in {q \in [1..3 -> 1..3] : \A i, j \in 1..3 : i # j => q[i] # q[j]}}
+Reach(L, i) == \A j \in 1..(i - 1) : "nomatch" \in ev[L[j]]
+Decided(L) == \A i \in DOMAIN L : ev[L[i]] \in {Match, NoMatch}
+First(L) == IF \E i \in DOMAIN L : ev[L[i]] = Match
+                THEN L[CHOOSE i \in DOMAIN L : ev[L[i]] = Match /\ \A j \in 1..(i - 1) : ev[L[j]] = NoMatch]
+                ELSE 0
+Evs == [i \in 1..3 |-> Eval(Rs[i], d, d, {})]
+Init == stage = 0 /\ mode \in Modes /\ d = 0 /\ x = 0 /\ y = 0 /\ z = 0 /\ ev = 0 /\ out = 0
+PickFirst ==
+    /\ stage = 0 /\ stage' = 1 /\ UNCHANGED <<mode, y, z, ev, out>>
+    /\ \/ mode \in {"doc", "atom"} /\ d' \in Docs /\ x' = 0
+       \/ mode = "tree" /\ d' \in DocsS /\ x' = 0
+       \/ mode = "rules" /\ d' \in DocsR /\ x' = 0
+       \/ mode \in {"str3", "str"} /\ d' = 0 /\ x' \in Strs
+       \/ mode = "sets" /\ d' = 0 /\ x' \in ResultSets
+PickRest ==
+    /\ stage = 1 /\ stage' = 2 /\ UNCHANGED <<mode, d>>
+    /\ \/ mode = "doc" /\ x' = 0 /\ y' = 0 /\ z' = 0
+       \/ mode = "atom" /\ x' \in Atoms /\ y' = 0 /\ z' = 0
+       \/ mode = "tree" /\ x' \in Atoms /\ y' \in AtomsY /\ z' = 0
+       \/ mode = "rules" /\ x' \in Small /\ y' \in Small /\ z' \in Small
+       \/ mode = "str3" /\ x' = x /\ y' \in Strs /\ z' \in Strs
+       \/ mode = "str" /\ x' = x /\ y' \in Strs /\ z' \in StrsShort
+       \/ mode = "sets" /\ x' = x /\ y' \in ResultSets /\ z' \in ResultSets
+    (* the result set of each rule and the outcome of every rule list, computed once per case *)
+    /\ IF mode = "rules" THEN ev' = Evs' /\ out' = OutTable' ELSE ev' = 0 /\ out' = 0
+Next == PickFirst \/ PickRest
+
+
 (* an independent characterisation of the recursion: a rule's Next is admissible iff the rule
    can match and every earlier rule can fail to match; the end iff every rule can fail *)
-LawFirstMatch == mode = "rules" =>
-    \A rs \in Lists, df \in Defaults :
-        Out(rs, df) = {GoTo(rs[i].next) : i \in {i \in DOMAIN rs : "match" \in Ev(rs, i) /\ Reach(rs, i)}}
-                      \cup (IF \E i \in DOMAIN rs : "error" \in Ev(rs, i) /\ Reach(rs, i) THEN {AnyFailure} ELSE {})
-                      \cup (IF Reach(rs, Len(rs) + 1) THEN {End(df)} ELSE {})
-Decided(rs) == \A i \in DOMAIN rs : Ev(rs, i) \in {Match, NoMatch}
-First(rs) == IF \E i \in DOMAIN rs : Ev(rs, i) = Match
-             THEN rs[CHOOSE i \in DOMAIN rs : Ev(rs, i) = Match /\ \A j \in 1..(i - 1) : Ev(rs, j) = NoMatch].next
-             ELSE ""
-LawDecidedIsSingleton == mode = "rules" =>
-    \A rs \in Lists, df \in Defaults :
-        Decided(rs) => Out(rs, df) = {IF First(rs) = "" THEN End(df) ELSE GoTo(First(rs))}
+LawFirstMatch == Case("rules") =>
+    \A L \in Lists, df \in Defaults :
+        out[L][df] = {GoTo(Rs[L[i]].next) : i \in {i \in DOMAIN L : "match" \in ev[L[i]] /\ Reach(L, i)}}
+                     \cup (IF \E i \in DOMAIN L : "error" \in ev[L[i]] /\ Reach(L, i) THEN {AnyFailure} ELSE {})
+                     \cup (IF Reach(L, Len(L) + 1) THEN {End(df)} ELSE {})
+LawDecidedIsSingleton == Case("rules") =>
+    \A L \in Lists, df \in Defaults :
+        Decided(L) => out[L][df] = {IF First(L) = 0 THEN End(df) ELSE GoTo(Rs[First(L)].next)}
 (* order matters only through the first match: two orders of the same rules with the same
    first matching rule have the same outcome; what follows the first match is irrelevant;
    rules that do not match can be removed *)
-LawOrderOnlyThroughFirstMatch == mode = "rules" =>
-    \A rs \in Lists, qs \in Lists, df \in Defaults :
-        (Len(rs) = 3 /\ Len(qs) = 3 /\ Decided(rs) /\ First(rs) = First(qs)) => Out(rs, df) = Out(qs, df)
-LawAfterFirstMatchIrrelevant == mode = "rules" =>
-    \A df \in Defaults, k \in 1..3 : Ev(Rs, k) = Match => Out(Rs, df) = Out(SubSeq(Rs, 1, k), df)
-LawNonMatchingRemovable == mode = "rules" =>
-    \A df \in Defaults :
-        /\ Ev(Rs, 1) = NoMatch => Out(Rs, df) = Out(Tail(Rs), df)
-        /\ Ev(Rs, 2) = NoMatch => Out(Rs, df) = Out(<<Rs[1], Rs[3]>>, df)
-        /\ Ev(Rs, 3) = NoMatch => Out(Rs, df) = Out(SubSeq(Rs, 1, 2), df)
-LawDefault == mode = "rules" =>
-    /\ Out(<<>>, [set |-> TRUE, next |-> "D"]) = {GoTo("D")}
-    /\ Out(<<>>, [set |-> FALSE, next |-> ""]) = {NoChoiceMatched}
-    /\ \A df \in Defaults : (\E i \in 1..3 : Ev(Rs, i) = Match /\ Reach(Rs, i) /\ Decided(SubSeq(Rs, 1, i)))
-                             => End(df) \notin Out(Rs, df)
-    /\ (\A i \in 1..3 : Ev(Rs, i) = NoMatch) => Out(Rs, [set |-> FALSE, next |-> ""]) = {NoChoiceMatched}
+LawOrderOnlyThroughFirstMatch == Case("rules") =>
+    \A L \in Lists, K \in Lists, df \in Defaults :
+        ({L[i] : i \in DOMAIN L} = {K[i] : i \in DOMAIN K} /\ Decided(L) /\ First(L) = First(K))
+            => out[L][df] = out[K][df]
+LawAfterFirstMatchIrrelevant == Case("rules") =>
+    \A L \in Lists, df \in Defaults, k \in 1..3 :
+        (k <= Len(L) /\ ev[L[k]] = Match) => out[L][df] = out[SubSeq(L, 1, k)][df]
+LawNonMatchingRemovable == Case("rules") =>
+    \A L \in Lists, df \in Defaults, k \in 1..3 :
+        (k <= Len(L) /\ ev[L[k]] = NoMatch) => out[L][df] = out[SubSeq(L, 1, k - 1) \o SubSeq(L, k + 1, Len(L))][df]
+LawDefault == Case("rules") =>
+    /\ out[<<>>][[set |-> TRUE, next |-> "D"]] = {GoTo("D")}
+    /\ out[<<>>][[set |-> FALSE, next |-> ""]] = {NoChoiceMatched}
+    /\ \A L \in Lists, df \in Defaults :
+          /\ (\E i \in DOMAIN L : ev[L[i]] = Match /\ Decided(SubSeq(L, 1, i)) /\ Reach(L, i)) => End(df) \notin out[L][df]
+          /\ (\A i \in DOMAIN L : ev[L[i]] = NoMatch) => out[L][df] = {End(df)}
 
 (* ---- strings ----------------------------------------------------------------------------- *)
-LawCodePointOrder == mode = "str" =>
+LawCodePointOrder == Case("str3") =>
     /\ ~CpLess(x, x)
     /\ (x # y => (CpLess(x, y) /\ ~CpLess(y, x)) \/ (CpLess(y, x) /\ ~CpLess(x, y)))
     /\ (CpLess(x, y) /\ CpLess(y, z) => CpLess(x, z))
@@ -189,7 +231,7 @@ LawCodePointOrder == mode = "str" =>
     /\ (CpLess(x, y) /\ Len(x) = Len(y) => CpLess(x \o z, y \o z))
 NoSpecial(p) == \A i \in DOMAIN p : p[i] \notin {STAR, BACKSLASH}
 G(p, s) == Glob(p, s, {})
-LawWildcard == mode = "str" =>
+LawWildcard == Case("str") =>
     /\ G(<<STAR>>, x)
     /\ (NoSpecial(x) => (G(x, y) <=> x = y))                   (* also '?' stands for itself *)
     /\ (G(<<BACKSLASH, STAR>>, x) <=> x = <<STAR>>)
@@ -201,13 +243,13 @@ LawWildcard == mode = "str" =>
     /\ PatternUnspecified(<<BACKSLASH>>) /\ PatternUnspecified(<<BACKSLASH, 97>>) /\ PatternUnspecified(<<97, BACKSLASH>>)
     /\ ~PatternUnspecified(<<BACKSLASH, BACKSLASH>>) /\ ~PatternUnspecified(<<BACKSLASH, STAR>>)
 (* the deviations really are deviations, and only where they are meant to be *)
-LawDeviations == mode = "str" =>
+LawDeviations == Case("str") =>
     /\ Glob(<<QUESTION>>, <<97>>, {"QuestionMarkIsWildcard"}) /\ ~G(<<QUESTION>>, <<97>>)
     /\ (QUESTION \notin {x[i] : i \in DOMAIN x} => Glob(x, y, {"QuestionMarkIsWildcard"}) = G(x, y))
     /\ ((\A i \in DOMAIN x : x[i] = BACKSLASH => i < Len(x) /\ x[i + 1] = STAR) => Glob(x, y, {"BackslashEscapesOnlyStar"}) = G(x, y))
 
 (* ---- the result sets ----------------------------------------------------------------------- *)
-LawResultSets == mode = "sets" =>
+LawResultSets == Case("sets") =>
     /\ NotR(AndR(<<x, y>>)) = OrR(<<NotR(x), NotR(y)>>)
     /\ NotR(OrR(<<x, y>>)) = AndR(<<NotR(x), NotR(y)>>)
     /\ NotR(NotR(x)) = x
